@@ -80,18 +80,18 @@ Fresh(d) == [sem |-> d, ren |-> ForceFn([n \in DescNames(d) |-> Plain(n)]), outs
              heads |-> ForceFn([n \in AllOutputs(d) |-> n])]
 CurName(o, n)  == Cur(o.ren[n])
 CurSet(o, S)   == {CurName(o, n) : n \in S}
-HasCur(o, c)   == \E n \in DOMAIN o.ren : CurName(o, n) = c
-OrigOf(o, c)   == CHOOSE n \in DOMAIN o.ren : CurName(o, n) = c
-OrigSet(o, C)  == {OrigOf(o, c) : c \in C}
-Injective(ren) == \A m, n \in DOMAIN ren : m # n => Cur(ren[m]) # Cur(ren[n])
 Hidden(o)      == AllOutputs(o.sem) \ o.outs
 (* names the user can address: everything in a plain pipeline; once functions were merged only root arguments  *)
-(* and retained outputs                                                                                     *)
+(* and retained outputs (what is inside a NestedPipeFunc has no spelling outside it)                          *)
 Visible(o)     == IF o.merged THEN FreeRoots(o.sem) \cup o.outs ELSE DescNames(o.sem)
+HasCur(o, c)   == \E n \in Visible(o) : CurName(o, n) = c
+OrigOf(o, c)   == CHOOSE n \in Visible(o) : CurName(o, n) = c
+OrigSet(o, C)  == {OrigOf(o, c) : c \in C}
+Injective(o)   == \A m, n \in Visible(o) : m # n => CurName(o, m) # CurName(o, n)
 ParamScopes(o) == {o.ren[n].scope : n \in AllParams(o.sem) \cap Visible(o)} \ {""}
 (* validate_scopes: a scope may not be spelled like a name *)
 ScopesOK(o)    == ParamScopes(o) \cap CurSet(o, Visible(o)) = {}
-ObjOK(o)       == /\ WellFormedDesc(o.sem) /\ DOMAIN o.ren = DescNames(o.sem) /\ Injective(o.ren)
+ObjOK(o)       == /\ WellFormedDesc(o.sem) /\ DOMAIN o.ren = DescNames(o.sem) /\ Injective(o)
                   /\ DOMAIN o.heads = AllOutputs(o.sem)
                   /\ o.outs \subseteq AllOutputs(o.sem) /\ ScopesOK(o)
 
@@ -105,6 +105,8 @@ RenFunc(fn, f)  == [fn EXCEPT !.params = ForceSeq([k \in DOMAIN fn.params |-> f[
 RenameDesc(d, f) == [funcs |-> ForceSeq([i \in DOMAIN d.funcs |-> RenFunc(d.funcs[i], f)])]
 CurMap(o)  == ForceFn([n \in DOMAIN o.ren |-> CurName(o, n)])
 CurDesc(o) == RenameDesc(o.sem, CurMap(o))
+(* CurDesc is a description only if no two names are spelled alike - also none hidden inside a merged function *)
+SpellingsDistinct(o) == \A m, n \in DOMAIN o.ren : m # n => CurName(o, m) # CurName(o, n)
 RECURSIVE RenTerm(_, _)
 RenTerm(v, f) == [f |-> IF v.f \in DOMAIN f THEN f[v.f] ELSE v.f, a |-> ForceSeq([k \in DOMAIN v.a |-> RenTerm(v.a[k], f)])]
 
@@ -144,8 +146,9 @@ StructOf(o) == [outs |-> CurSet(o, o.outs), roots |-> CurSet(o, FreeRoots(o.sem)
 (* join / |.  The join connects by CURRENT spelling: a name of q spelled like a name of p is that name; a name of q *)
 (* that p spells differently is a different thing that merely descends from the same function text (two copies of one *)
 (* pipeline under two scopes) and is tagged apart before the descriptions are put together.                          *)
-TagMap(p, q, id) == ForceFn([n \in DOMAIN q.ren |->
-                        IF HasCur(p, Cur(q.ren[n])) THEN OrigOf(p, Cur(q.ren[n]))
+TagMap(p, q, id) == LET vq == Visible(q) IN
+                    ForceFn([n \in DOMAIN q.ren |->
+                        IF n \in vq /\ HasCur(p, Cur(q.ren[n])) THEN OrigOf(p, Cur(q.ren[n]))
                         ELSE IF n \in DOMAIN p.ren THEN n \o "~" \o ToString(id) ELSE n])
 Tagged(q, tm)    == [sem |-> RenameDesc(q.sem, tm), ren |-> ForceFn([m \in {tm[n] : n \in DOMAIN q.ren} |-> q.ren[CHOOSE n \in DOMAIN q.ren : tm[n] = m]]),
                      outs |-> {tm[n] : n \in q.outs}, merged |-> q.merged,
@@ -156,8 +159,10 @@ JoinObj(p, q, id) == JoinPlain(p, Tagged(q, TagMap(p, q, id)))
 JoinDefined(p, q, id) ==
     LET q2 == Tagged(q, TagMap(p, q, id)) IN
     /\ AllOutputs(p.sem) \cap AllOutputs(q2.sem) = {}
-    /\ Hidden(p) \cap DescNames(q2.sem) = {} /\ Hidden(q2) \cap DescNames(p.sem) = {}
     /\ ObjOK(JoinPlain(p, q2))
+
+(* with a merged operand the model cannot tell whether the join closes a cycle through a merged node *)
+JoinMustAccept(p, q, id) == JoinDefined(p, q, id) /\ ~p.merged /\ ~q.merged
 
 (* update_renames: r = pairs  current name -> NameRec *)
 RenUpdate(o, r) == ForceFn([n \in DOMAIN o.ren |-> IF PHas(r, CurName(o, n)) THEN PGet(r, CurName(o, n)) ELSE o.ren[n]])
@@ -335,9 +340,10 @@ StoreOK    == \A a \in Live : ObjOK(objs[a])
 KwOfSet(S, val(_)) == LET s == SetToSeq(S) IN ForceSeq([k \in 1..Len(s) |-> <<s[k], val(s[k])>>])
 RenKw(o, kw) == ForceSeq([k \in DOMAIN kw |-> <<CurName(o, kw[k][1]), kw[k][2]>>])
 (* renaming commutes with Eval: evaluating the description the user sees on renamed keywords gives the renamed term *)
-LawRenameCall(o, kw, out) == Eval(CurDesc(o), RenKw(o, kw), CurName(o, out)) = RenTerm(Eval(o.sem, kw, out), CurMap(o))
+LawRenameCall(o, kw, out) == SpellingsDistinct(o) =>
+                             Eval(CurDesc(o), RenKw(o, kw), CurName(o, out)) = RenTerm(Eval(o.sem, kw, out), CurMap(o))
 LawRenameMap(o, inp) == LET den == MapDenoteE(CurDesc(o), RenKw(o, inp))  den0 == MapDenoteE(o.sem, inp)
-                        IN  \A n \in AllOutputs(o.sem) : den[CurName(o, n)] = RenTerm(den0[n], CurMap(o))
+                        IN  SpellingsDistinct(o) => \A n \in AllOutputs(o.sem) : den[CurName(o, n)] = RenTerm(den0[n], CurMap(o))
 (* ... and the observation defined through o.ren is the same thing *)
 LawObsCall(o, kw, out) == EvalObs(o, CurName(o, out), RenKw(o, kw), "call") = RenTerm(Eval(o.sem, kw, out), o.heads)
 (* scope removal inverts scope addition (on names that had no scope) *)
